@@ -15,7 +15,7 @@ TECHNIQUE = CLAIMS[ID]["technique"]
 RULE = (
     "state-machine half: BFS over the REAL workflow objects from DesignManager, taking every name in "
     "available_transitions() with canned arguments (a 2-state model; a one-candidate grid and 4 data rows for fit_model); "
-    "in every reached state history() must equal the path of state_id()s and state_id() must be a StateId; for EVERY "
+    "each transition executed twice from the same state object (branching); after every transition history() of EVERY object reached so far must equal the path of state_id()s that led to it, and state_id() must be a StateId; for EVERY "
     "(reached state, target StateId) pair search(target) must return a shortest path of the graph obtained by actually "
     "executing the transitions, and executing the returned names must end in the target; unreachable targets and "
     "non-StateId targets ('Fit_Model', 2, None, 1.5) must raise ValueError. Fit half: data sets of 0, 1, 2 rows must be "
@@ -89,6 +89,7 @@ def eval_machine(case):
     states = {}          # state_id -> (object, path of transition names, path of state ids)
     edges = {}           # state_id -> {transition name: state_id}
     frontier = deque([(start, [], [start.state_id()])])
+    live = [(start, [], [start.state_id()])]
     ntrans = 0
     while frontier:
         obj, path, ids = frontier.popleft()
@@ -125,6 +126,23 @@ def eval_machine(case):
                 continue
             edges[sid][name] = nxt.state_id()
             frontier.append((nxt, path + [name], ids + [nxt.state_id()]))
+            live.append((nxt, path + [name], ids + [nxt.state_id()]))
+            # branch again from the SAME state object: a second, independent execution of the same transition
+            try:
+                kwargs = canned[name]()
+                if "data" in kwargs:
+                    kwargs["data"] = data_rows(4 + variant % 2, 0, variant)
+                twin = getattr(obj, name)(**kwargs)
+                ntrans += 1
+                live.append((twin, path + [name], ids + [twin.state_id()]))
+            except MinimizationFailure:
+                pass
+            except Exception as e:
+                fail(f"transition-raises-second-time:{name}", f"second {name} from the same {sid} object raised {type(e).__name__}: {str(e)[:200]}")
+            # the record of states visited must stay correct for EVERY object reached so far, not only the newest
+            for o, pth, want in live:
+                if list(o.history()) != want:
+                    fail("history", f"after executing {name} from {sid}: object reached via {pth} reports history {o.history()}, visited {want}")
     # declared order: Start -> Symbolic_Model -> Fit_Model and nothing else
     declared = {StateId.Start: {StateId.Symbolic_Model}, StateId.Symbolic_Model: {StateId.Fit_Model}, StateId.Fit_Model: set()}
     for sid, out in edges.items():
